@@ -46,6 +46,10 @@ def dcoo(ent):
     return zlist([((r * 4096 + c) << 66) | pk(v) for r, c, v in ent])
 
 
+def inv_term(v):
+    return f"check_inv {zi(v['n'])} {zi(len(v['A']))} {zi(len(v['B']))} {dcoo(v['A'])} {dcoo(v['B'])}"
+
+
 # ----------------------------------------------------------------------------- grids
 def make_grid(spec):
     kind = spec["kind"]
@@ -169,13 +173,13 @@ def to_dense(ent, shape):
 
 
 #: (grid, dimension, num_subproblems) of the larger oracle-only cases; the first one (24 cells,
-#: one face discretized by three subproblems) is also part of the quick tier
+#: one face discretized by three subproblems) and the second (perturbed hexahedra with
+#: non-planar faces) are also part of the quick tier
 BIG_SPECS = [({"kind": "tet", "n": [2, 2, 1]}, 3, 4),
-             ({"kind": "tet", "n": [3, 3, 2]}, 3, 4),
              ({"kind": "cart", "n": [2, 2, 2]}, 3, 0),
+             ({"kind": "tet", "n": [3, 3, 2]}, 3, 4),
              ({"kind": "tri", "n": [4, 4]}, 2, 4),
-             ({"kind": "cart", "n": [5, 5]}, 2, 3),
-             ({"kind": "tet", "n": [3, 3, 2]}, 3, 2)]
+             ({"kind": "cart", "n": [5, 5]}, 2, 3)]
 
 
 class LocalCapture:
@@ -204,7 +208,10 @@ class LocalCapture:
                 blk = M[off[i]:off[i + 1], off[i]:off[i + 1]].toarray()
                 cnd = float(np.linalg.cond(blk)) if blk.size else 0.0
                 cap.max_cond = max(cap.max_cond, cnd if np.isfinite(cnd) else 1e300)
-            return cap.o4(mat, s, method=method)
+            out = cap.o4(mat, s, method=method)
+            cap.inv_calls = getattr(cap, "inv_calls", 0) + 1
+            cap.got.setdefault("inv", (sps.csr_matrix(mat).copy(), sps.csr_matrix(out).copy()))
+            return out
 
         pp.matrix_operations.invert_diagonal_blocks = w4
 
@@ -234,6 +241,16 @@ class LocalCapture:
         pp.matrix_operations.diagonal_scaling_matrix = self.o2
         pp.Mpfa._create_bound_rhs = self.o3
         pp.matrix_operations.invert_diagonal_blocks = self.o4
+
+    def inverse_pair(self, max_nnz=900):
+        """The block-diagonal matrix A of all local systems as handed to the inverter and
+        the matrix B it returned (certificate: rows of B A - I have 1-norm <= 1/2)."""
+        if getattr(self, "inv_calls", 0) != 1 or "inv" not in self.got:
+            return None
+        A, B = self.got["inv"]
+        if A.shape[0] != A.shape[1] or A.shape != B.shape or A.nnz + B.nnz > max_nnz:
+            return None
+        return {"n": int(A.shape[0]), "A": canon(A), "B": canon(B)}
 
     def local_systems(self, max_nnz=1500):
         """The captured local equations A g = RC p_cells + RB bdata_faces, or None."""
@@ -279,7 +296,7 @@ class C11(Prop):
     id = "C11"
     props_file = "Props/C11.v"
     preamble = ("From Coq Require Import List ZArith QArith.\nImport ListNotations.\n"
-                "From PP Require Import Model.C11.\nLocal Open Scope Z_scope.\n")
+                "From PP Require Import Model.C11 Model.C11_inv.\nLocal Open Scope Z_scope.\n")
     n_cases = (20, 150)
     design_ref = "DESIGN.md §5 C11 (certificate tie K, level P-method)"
     level_text = (
@@ -291,62 +308,76 @@ class C11(Prop):
         "constant gradient a solves every local equation (C11_linear_solves_local); if the local "
         "matrix has a left inverse, the gradients the code computes (inverse times right-hand side) "
         "ARE a, so every sub-face flux is -(K n).a and every reconstructed pressure is p(x) "
-        "(C11_unique_exact), constant fields give zero flux (C11_constant_zero). (B) Matrix level: the "
-        "residual of 'flux*p_cells + bound_flux*bdata = -n.K a' and of the boundary pressure "
-        "reconstruction is linear in the coefficients (b, a) of the field, so a bound/equality "
-        "established for the four basis fields 1, x, y, z extends to EVERY linear field on that "
-        "instance (C11_linear_extension*). The tie is translation validation per run. Certificate (i): "
-        "the four REAL matrices of pp.Mpfa on each generated grid are converted exactly (every binary64 "
-        "is a dyadic rational) and Coq evaluates the basis-field residuals on every face (band 1e-9 "
-        "relative), together with symmetry/positive definiteness of K. Certificate (ii), on half of the "
-        "cases: the matrix of ALL local equations the code assembled (grad_eqs, captured by "
-        "monkey-patching) applied to the constant gradient of each basis field equals, row by row, the "
-        "right-hand side the code builds from that field's cell pressures and boundary data, i.e. the "
-        "hypothesis 'the linear field solves the local equations' is validated on the actual rows "
-        "(C11_local_rows_linear_extension extends it to every linear field).")
+        "(C11_unique_exact), constant fields give zero flux (C11_constant_zero); an APPROXIMATE left "
+        "inverse (rows of B A - I of 1-norm <= q < 1) already makes the solution of a local system "
+        "unique (C11_local_unique_solution). (B) Matrix level: the residual of 'flux*p_cells + "
+        "bound_flux*bdata = -n.K a' and of the boundary pressure reconstruction is linear in the "
+        "coefficients (b, a) of the field, so a bound/equality established for the four basis fields "
+        "1, x, y, z extends to EVERY linear field on that instance (C11_linear_extension*). The tie is "
+        "translation validation per run, everything converted exactly (binary64 = dyadic rational) and "
+        "evaluated inside Coq with a purely relative norm-wise band 1e-9. Certificate (i): the four REAL "
+        "matrices of pp.Mpfa, basis-field residuals on every face, K symmetric positive definite. "
+        "Certificate (ii), on a third of the cases: the matrix of ALL local equations the code assembled "
+        "(captured by monkey-patching) applied to the constant gradient of each basis field equals row "
+        "by row the right-hand side the code builds from that field (C11_local_rows_linear_extension). "
+        "Certificate (iii), on a third of the cases: the matrix the block inverter returns is an "
+        "approximate left inverse (row defect <= 1/2, measured ~1e-16) of the block-diagonal matrix of "
+        "all local systems it was given, so by C11_local_unique_solution the captured local systems "
+        "determine their solution, which by (ii) is the constant gradient.")
     level_note = (
         "Not proved: that mpfa.py assembles exactly the local equations of model (A) (SubcellTopology "
-        "bookkeeping, block inversion, row scaling, hf2f averaging, sub-problem splitting). That link is "
-        "covered by certificate (i) on the real matrices (end result) and by certificate (ii) on the "
-        "captured local systems (the actual rows are satisfied by the constant gradient; the cell-centre "
-        "part of the right-hand side, -[0; pr_cont_cell], is re-assembled in the harness from the "
-        "captured SubcellTopology/ExcludeBoundaries objects the way mpfa.py does, the boundary part is "
-        "the code's own rhs_bound). NOT checked: that the rows have the geometric form of model (A), and "
-        "inv*A = I (invertibility of the local systems stays a hypothesis of C11_unique_exact; it is not "
-        "proved from SPD K and not certified per instance). The definitions are field-polymorphic; "
-        "theorems are proved at R and the certificates are executed with exact dyadic arithmetic on "
-        "(mantissa, exponent) pairs (no division occurs), cross-checked in every case against the "
-        "Qred-normalised Q instance on the first two faces (instance independence of the definitions is "
-        "trusted, no transfer lemma). Exact flux is written -n.(K a) at matrix level and -(K n).a in "
-        "model (A) (equal for symmetric K, which the certificate checks). Float rounding is not covered: "
-        "band 1e-9*(1+|exact|) inside Coq. The full matrices (all nonzero entries) are evaluated inside "
-        "Coq; bound_pressure_* rows are sent for boundary faces only (the property speaks of those). "
-        "Quick tier: 2-D grids up to 9 cells and a few 1-6 cell 3-D grids; larger 3-D grids only in the "
-        "thorough tier.")
+        "bookkeeping, row scaling, hf2f averaging, sub-problem splitting and re-assembly). That link is "
+        "covered by certificate (i) on the real matrices (end result) and by (ii)/(iii) on the captured "
+        "local systems of unpartitioned runs (the cell-centre part of the right-hand side, "
+        "-[0; pr_cont_cell], is re-assembled in the harness from the captured SubcellTopology / "
+        "ExcludeBoundaries objects the way mpfa.py does; the boundary part is the code's own rhs_bound; "
+        "(iii) is evaluated on the row-scaled, block-permuted matrix the inverter sees). NOT checked: that "
+        "the captured rows have the geometric form of model (A). Soundness of the boolean checkers with "
+        "respect to the real-number hypotheses of the theorems is NOT proved: the definitions are "
+        "field-polymorphic, theorems are proved at R, the certificates are executed with exact dyadic "
+        "arithmetic on (mantissa, exponent) pairs (no division occurs), cross-checked in every case "
+        "against the Qred-normalised Q instance on the first two faces; certificate (iii) uses a sparse "
+        "row product whose agreement with prodBA is trusted. Exact flux is written -n.(K a) at matrix "
+        "level and -(K n).a in model (A) (equal for symmetric K, which the certificate checks). Float "
+        "rounding is not covered. Larger grids (24-108 cells: partitions with faces shared by three and "
+        "more subproblems, perturbed hexahedra with non-planar faces, larger 2-D partitions) are checked "
+        "by the numpy oracle only (norm-wise relative 1e-8). bound_pressure_* rows are sent for boundary "
+        "faces only. Case files are compiled in shards of 4 cases (module-level override of the shard "
+        "size of harness.core.coq_eval_bools; same terms and verdicts).")
     technique = ("Coq proof of the method (interaction-region algebra over R, linearity of the matrix "
-                 "residual) + per-instance certificate evaluated by vm_compute over exact rationals "
-                 "on the real MPFA matrices + numpy oracle")
+                 "residual, uniqueness from an approximate inverse) + per-instance certificates "
+                 "evaluated by vm_compute over exact dyadic rationals on the real MPFA matrices and "
+                 "captured local systems + numpy oracle")
     rule = ("grids: CartGrid (optionally stretched), StructuredTriangleGrid, Delaunay TriangleGrid of "
-            "random lattice points; all nodes (boundary included) perturbed by random multiples of "
-            "1/64 in 70% of the cases; 3-D CartGrid/StructuredTetrahedralGrid (10% quick with 1-6 cells, 35% thorough up to 12 cells); "
-            "K = L L^T constant, small integer entries incl. off-diagonal terms; every boundary face "
-            "independently Dirichlet or Neumann (also all-Dirichlet, all-Neumann); three random "
-            "linear fields with small integer coefficients plus one constant field per case; "
-            "non-trivial = at least 2 cells and a non-zero gradient")
-    trusted = ["geometry arrays (cell_centers, face_centers, face_normals), K, boundary flags/signs "
-               "and the four matrices of the real run are passed to Coq as exact dyadic rationals"]
+            "random lattice points, small 3-D CartGrid / StructuredTetrahedralGrid; all nodes (boundary "
+            "included) perturbed by multiples of 1/64 in 70% of the cases (non-planar hexahedron faces in "
+            "3-D); 40% of the grids moved by x -> 2^k R x + t with R an exact rational rotation "
+            "(coordinate planes, generic, tiny tilt), t up to (1000,-500,250), k in -20..10, the tensor "
+            "rotated with the grid (2-D grids embedded in 3-D with in-plane anisotropic K); K = L L^T "
+            "with small integers incl. off-diagonal terms, scaled by 2^-20..2^10; every boundary face "
+            "independently Dirichlet or Neumann (also all-Dirichlet, all-Neumann); half of the cases "
+            "discretized in 2 or 3 overlapping subproblems (partition_arguments); two (quick) resp. five "
+            "(thorough) larger oracle-only grids incl. StructuredTetrahedralGrid([2,2,1]) and ([3,3,2]) "
+            "split into 4 subproblems (faces discretized three and four times); three random linear "
+            "fields plus one constant field per case; non-trivial = at least 2 cells and a non-zero "
+            "gradient")
+    trusted = ["geometry arrays (cell_centers, face_centers, face_normals), K, boundary flags/signs, the "
+               "four matrices of the real run and the captured local matrices are passed to Coq as exact "
+               "dyadic rationals; the captured rotated tensor of an embedded 2-D grid is symmetrised "
+               "(rounding-level change) before the exact symmetry test"]
     assumptions = ["constant symmetric positive definite K (checked per instance in Coq)",
                    "the code raises ValueError('Error in inversion of local linear systems') on an "
                    "exactly singular local system (degenerate grid): recorded as result, nothing claimed",
-                   "left inverse of the local systems (hypothesis of C11_unique_exact)",
-                   "default eta, numba inverter, no partition of the discretization"]
+                   "left inverse of the local systems: hypothesis of C11_unique_exact; certified per "
+                   "instance (approximate inverse, certificate iii) on a third of the small cases",
+                   "default eta, numba inverter"]
 
     # ------------------------------------------------------------------ generation
     def generate(self, rng, n, tier):
         # a few larger grids, checked by the oracle only (too large for the Coq certificate):
         # partitions with faces shared by three and more subproblems, larger 2-D partitions,
         # perturbed hexahedra (non-planar faces)
-        big = BIG_SPECS[:1] if tier == "quick" else BIG_SPECS
+        big = BIG_SPECS[:2] if tier == "quick" else BIG_SPECS
         nbig = min(len(big), max(0, n - 1)) if n >= 4 else 0
         for it in range(n):
             if it >= n - nbig:
@@ -391,9 +422,10 @@ class C11(Prop):
             # number of overlapping subproblems the discretization is split into
             nsub = rng.choice([None, None, 2, 3]) if g.num_cells >= 2 else None
             case = {"grid": spec, "dim": dim, "K": [[float(x) for x in row] for row in K],
-                    "dir": dirf, "fields": fields, "local": rng.random() < 0.34, "nsub": nsub}
+                    "dir": dirf, "fields": fields, "local": rng.random() < 0.34, "nsub": nsub,
+                    "inv": rng.random() < 0.3}
             if nsub_big is not None:
-                case.update(nsub=nsub_big or None, local=False, oracle_only=True)
+                case.update(nsub=nsub_big or None, local=False, inv=False, oracle_only=True)
             yield case
 
     # ------------------------------------------------------------------ implementation
@@ -433,6 +465,7 @@ class C11(Prop):
                 return {"error": "singular-local-system", "nc": int(g.num_cells),
                         "nf": int(g.num_faces)}
         local = cap.local_systems() if case.get("local", True) else None
+        inv = cap.inverse_pair() if case.get("inv") else None
         md = data[pp.DISCRETIZATION_MATRICES][KW]
         bfaces = [int(f) for f in g.get_all_boundary_faces()]
         cf = g.cell_faces.tocsr()
@@ -441,7 +474,7 @@ class C11(Prop):
             s = int(cf[f].data[0])
             kinds[f] = s * (1 if bc.is_dir[f] else 2)
         return {"dim": int(g.dim), "nf": int(g.num_faces), "nc": int(g.num_cells),
-                "kinds": kinds, "local": local, "max_cond": cap.max_cond,
+                "kinds": kinds, "local": local, "inv": inv, "max_cond": cap.max_cond,
                 "flux": canon(md[discr.flux_matrix_key]),
                 "bound_flux": canon(md[discr.bound_flux_matrix_key]),
                 "bpc": canon(md[discr.bound_pressure_cell_matrix_key], bfaces),
@@ -522,6 +555,10 @@ class C11(Prop):
         if res.get("local"):
             # certificate (ii): the captured local systems of the same run
             t = f"andb ({t}) ({self._local(res)})"
+        if res.get("inv"):
+            # certificate (iii): the inverter's output is an approximate left inverse of the
+            # block-diagonal matrix of all local systems (hence these determine their solution)
+            t = f"andb ({t}) ({inv_term(res['inv'])})"
         return t
 
     def coq_diag(self, case, res):
